@@ -58,6 +58,11 @@ type tenv map[types.Object]tval
 
 // call evaluates f's body; args are bound to its parameters.
 func (t *tableEval) call(f *Func, args []tval) ([]tval, bool) {
+	return t.callRecv(f, nil, args)
+}
+
+// callRecv is call with the receiver bound as well (methods of symbolic objects).
+func (t *tableEval) callRecv(f *Func, recv *tval, args []tval) ([]tval, bool) {
 	if t.depth > 4 {
 		t.fail(f, f.Body, "inlining too deep")
 		return nil, false
@@ -65,6 +70,9 @@ func (t *tableEval) call(f *Func, args []tval) ([]tval, bool) {
 	t.depth++
 	defer func() { t.depth-- }()
 	env := tenv{}
+	if recv != nil && f.Decl != nil && f.Decl.Recv != nil && len(f.Decl.Recv.List) == 1 && len(f.Decl.Recv.List[0].Names) == 1 {
+		env[f.Info().ObjectOf(f.Decl.Recv.List[0].Names[0])] = *recv
+	}
 	if f.Type.Params != nil {
 		i := 0
 		for _, fld := range f.Type.Params.List {
@@ -398,11 +406,55 @@ func (t *tableEval) expr(f *Func, e ast.Expr, env tenv) (tval, bool) {
 			if r.I != 0 {
 				return tval{I: l.I % r.I}, true
 			}
+		case token.SHL:
+			if r.I >= 0 && r.I < 64 {
+				return tval{I: int64(uint64(l.I) << uint(r.I))}, true
+			}
+			if r.I >= 64 {
+				return tval{I: 0}, true
+			}
+		case token.SHR:
+			if r.I >= 0 {
+				sh := uint(min(r.I, 63))
+				if unsigned {
+					if r.I >= 64 {
+						return tval{I: 0}, true
+					}
+					return tval{I: int64(uint64(l.I) >> sh)}, true
+				}
+				return tval{I: l.I >> sh}, true
+			}
+		case token.AND:
+			return tval{I: l.I & r.I}, true
+		case token.OR:
+			return tval{I: l.I | r.I}, true
+		case token.XOR:
+			return tval{I: l.I ^ r.I}, true
+		case token.AND_NOT:
+			return tval{I: l.I &^ r.I}, true
 		}
 	case *ast.CallExpr:
 		ce := resolveCallee(info, x)
 		if ce.Conv && len(x.Args) == 1 {
-			return t.expr(f, x.Args[0], env)
+			v, ok := t.expr(f, x.Args[0], env)
+			if !ok || v.IsBool || v.Obj != "" || v.IsNil {
+				return v, ok
+			}
+			// integer conversions wrap to the size of the target type
+			if bt, isBasic := info.TypeOf(x).Underlying().(*types.Basic); isBasic && bt.Info()&types.IsInteger != 0 {
+				bits := uint(64)
+				if f.Pkg.TypesSizes != nil {
+					bits = uint(f.Pkg.TypesSizes.Sizeof(bt)) * 8
+				}
+				if bits < 64 {
+					u := uint64(v.I) & (1<<bits - 1)
+					if bt.Info()&types.IsUnsigned == 0 && u&(1<<(bits-1)) != 0 {
+						u |= ^uint64(0) << bits
+					}
+					v.I = int64(u)
+				}
+			}
+			return v, true
 		}
 		if (ce.Builtin == "max" || ce.Builtin == "min") && len(x.Args) >= 1 {
 			var best tval
@@ -426,7 +478,16 @@ func (t *tableEval) expr(f *Func, e ast.Expr, env tenv) (tval, bool) {
 				}
 				args = append(args, v)
 			}
-			res, ok := t.call(g, args)
+			var recv *tval
+			if ce.Recv != nil {
+				saved := t.why
+				if rv, ok := t.expr(f, ce.Recv, env); ok {
+					recv = &rv
+				} else {
+					t.why = saved
+				}
+			}
+			res, ok := t.callRecv(g, recv, args)
 			if ok && len(res) == 1 {
 				return res[0], true
 			}
